@@ -86,6 +86,11 @@ check("C14", "model_checking",
       "Trusted: the probes sit where the commit places them (a change that moves shared-state accesses across a probe is explored at the new granularity); std::sync::mpsc/Mutex semantics; 10 s arrival timeout -> trace validation failure = exit 2. Interleavings finer than probe granularity are not explored.",
       "stateful model checking of the real implementation (DFS over controlled schedules) + proptest random schedules", "DESIGN.md §4 C14, §5a")
 
+check("C16", "exploration",
+      "(A) differential testing across transports: proptest request sequences are sent over unix path, unix path;mode=, abstract unix, TCP (each reached through the library's own varlink_connect), a service spawned by Connection::with_activate and the stdio of a command spawned by Connection::with_bridge; every reply stream must satisfy the reference model and equal the in-memory handler's. (B) both spawning constructors are exercised in fresh helper processes with 0..3 placeholder descriptors (so the listening socket is / is not already descriptor 3); the activated service dumps environment and descriptor table (fd 3 listening, LISTEN_FDS/FDNAMES/PID/VARLINK_ADDRESS). (C) the complete 5x4x4x3 activation-environment matrix for Listener::new in helper processes. (D) proptest garbage address strings: InvalidAddress from client and server alike.",
+      "Trusted: helper binary vl-svc (part of the harness). Debug-assertion builds only (std aborts on a doubly owned descriptor there); the release-profile double-close race is not searched. A constructor that does not return within 20 s in a fresh process, twice, is reported as a violation.",
+      "differential testing across transports + configuration-matrix enumeration + proptest address strings", "DESIGN.md §4 C16")
+
 ALL = ["C%02d" % i for i in range(1, 21)]
 
 NOT_BUILT_REASON = "check not built yet in this round (design in DESIGN.md §4); not claimed until it exists and is validated"
